@@ -1,10 +1,10 @@
 #!/bin/bash
 # ./confirm_seed2.sh <Cxx> <mK> [srcroot]  — round 2: like confirm_seed.sh but against /repo's HEAD (the tree
 # with the fix: commits); source /tmp/seed2/<Cxx>.out/<mK>; on success copies to /verif/seeded/<Cxx>-r2<mK>/.
-ID=$1; M=$2; ROOT=${3:-/tmp/seed2}
+ID=$1; M=$2; ROOT=${3:-/tmp/seed2}; TAG=${4:-r2}
 SRC=$ROOT/$ID.out/$M
 export GOFLAGS=-mod=mod GOPROXY=off GOSUMDB=off GOTOOLCHAIN=local
-WT=/tmp/confirm2-$ID-$M
+WT=/tmp/confirm2-$ID-$M-$$
 export TMPDIR=/tmp/confirm2-tmp-$ID-$M; mkdir -p $TMPDIR
 git -C /repo worktree remove --force $WT 2>/dev/null
 git -C /repo worktree add -q --detach $WT HEAD || exit 9
@@ -30,7 +30,7 @@ rundemo; with=$?
 git checkout -- . ; git clean -fdq
 rundemo; without=$?
 if [ $with -ne 0 ] && [ $with -ne 99 ] && [ $without -eq 0 ]; then
-  D=/verif/seeded/$ID-r2$M; mkdir -p $D
+  D=/verif/seeded/$ID-$TAG$M; mkdir -p $D
   cp $SRC/patch.diff $D/; cp $SRC/notes.md $D/ 2>/dev/null; cp $SRC/demo.sh $SRC/demo_test.go $D/ 2>/dev/null
   res "CONFIRMED suite=pass demo_with_patch=fail($with) demo_without=pass" 0
 fi
